@@ -539,7 +539,7 @@ func replayScenario(name string, beh []map[string]any) Scenario {
 		cfg := EngCfg{PI: 2 * time.Second, PT: time.Second, UT: 5 * time.Second}
 		w := newEngWorld(t, rec, g, cfg)
 		sc := &Script{w: w, r: rand.New(rand.NewSource(1)), cfg: cfg, W: map[string]int{},
-			gates: []string{"polling.send.enter", "ws.send.enter", "socket.onclose.tested"}}
+			gates: []string{"polling.send.enter", "ws.send.enter", "socket.onclose.tested", "L.flush", "L.close"}}
 		s, _ := w.Handshake(4, false, false, ReqOpt{})
 		c := &cliSess{S: s, Kind: "polling", autoPong: false}
 		sc.ss = append(sc.ss, c)
@@ -556,6 +556,8 @@ func replayScenario(name string, beh []map[string]any) Scenario {
 			switch a["a"] {
 			case "send":
 				go w.Send(sid, SendOpt{Size: 6})
+			case "flush.hand":
+				g.Release("L.flush")
 			case "appclose":
 				d, _ := a["discard"].(bool)
 				go w.Close(sid, d)
@@ -564,12 +566,29 @@ func replayScenario(name string, beh []map[string]any) Scenario {
 					w.Cause(sid, "error")
 				}
 				c.poll = w.StartReq("poll", s, ReqOpt{})
+			case "poll.abort":
+				if c.poll != nil {
+					w.Cause(sid, "error")
+					w.Abort(c.poll)
+				}
 			case "pollwrite":
-				g.Release("polling.send.enter")
+				i := 1
+				if f, ok := a["i"].(float64); ok {
+					i = int(f)
+				}
+				if !g.ReleaseNth("polling.send.enter", i-1) {
+					g.Release("polling.send.enter")
+				}
 			case "wswrite":
 				g.Release("ws.send.enter")
-			case "onclose.finish":
+			case "onclose.mid":
 				g.Release("socket.onclose.tested")
+			case "onclose.finish":
+				g.Release("L.close")
+			case "onclose.rest":
+				g.Release("socket.onclose.tested")
+				sc.settle()
+				g.Release("L.close")
 			case "climsg":
 				if c.Kind == "polling" {
 					w.Post(s, []Pkt{w.ClientMsg(5, false, 1)}, ReqOpt{})
@@ -592,7 +611,7 @@ func replayScenario(name string, beh []map[string]any) Scenario {
 				}
 			case "check":
 				g.Sleep(100 * time.Millisecond)
-			case "cand.upgrade":
+			case "cand.upgrade", "cand.upgrade.late":
 				if cand != nil && !cand.closed {
 					cand.SendPkt(Pkt{Type: "upgrade"})
 					sc.wait()
